@@ -115,6 +115,12 @@ func opsScript(sb *strings.Builder, v string, ops [][]any) {
 			fmt.Fprintf(sb, "%s->header(%s, %s);\n", v, q(str(op[1])), q(str(op[2])))
 		case "cookie":
 			fmt.Fprintf(sb, "%s->cookie(%s, %s, []);\n", v, q(str(op[1])), q(str(op[2])))
+		case "cookieopt":
+			// options as an associative-array literal (an ObjectValue in this interpreter)
+			fmt.Fprintf(sb, "%s->cookie(%s, %s, ['path' => '/x', 'maxAge' => 60, 'httpOnly' => true]);\n", v, q(str(op[1])), q(str(op[2])))
+		case "cookieopt2":
+			// options built element by element (an ArrayValue)
+			fmt.Fprintf(sb, "$o = []; $o['path'] = '/x'; $o['secure'] = true; %s->cookie(%s, %s, $o);\n", v, q(str(op[1])), q(str(op[2])))
 		case "cookie2":
 			fmt.Fprintf(sb, "%s->cookie(%s, %s);\n", v, q(str(op[1])), q(str(op[2])))
 		case "write":
